@@ -543,12 +543,15 @@ func (conn *Tunnel) process() error {
 // serve serves the tunnel connection. It can sustain certain failures. This method will try to
 // reconnect in case of a heartbeat failure or disconnect.
 func (conn *Tunnel) serve() {
+	// Deferred calls run in reverse order: signal completion last, so that Close does not return
+	// before the channels have been closed.
+	defer conn.wait.Done()
+
 	util.Log(conn, "Started worker")
 	defer util.Log(conn, "Worker exited")
 
 	defer close(conn.ack)
 	defer close(conn.inbound)
-	defer conn.wait.Done()
 
 	for {
 		err := conn.process()
